@@ -26,7 +26,7 @@ type C11Scenario struct {
 
 func (C11) ID() string { return "C11" }
 func (C11) Rule() string {
-	return "rapid-generated universes (3-8 packages x 1-12 versions: patch/minor/major lines, pre-releases between release lines, 0.x, npm dist-tag latest also on non-highest versions, Maven 2- and 4-component versions and qualifiers; acyclic edges with exact/caret/tilde/range/*/latest/N.x (npm) and soft/range/hard (Maven) requirements whose targets move with the version, dependencies dropped or added in later versions) served by the real deps.dev LocalClient; manifests with 1-5 direct requirements (npm: dependencies/dev/optional, aliases, dotted/scoped/dashed names, a key in two sections; Maven: dependencies, dependencyManagement, properties incl. shared ones, local parent POM, second declarations of an artifact at another version, profiles for Update); 1-4 vulnerabilities with explicit affected-version lists aimed at installed versions (with/without fix, multi-package advisories); default level in {major,minor,patch,none} and 0-2 per-package levels; plus three motif families (twin patches introducing one vulnerability, scope-shifting fix, diamond); one of npm/relax, Maven/override, Maven/Update; FixVulns runs under the scenario's schedule vector with 0-2 transient registry/matcher errors; every update of every applied patch and of every patch the strategy computed (un-faulted re-computation) is checked; non-trivial = at least one update whose base and new version were both resolved and compared; distinct = distinct scenario JSON"
+	return "rapid-generated universes (3-8 packages x 1-12 versions: patch/minor/major lines, pre-releases between release lines, 0.x, npm dist-tag latest also on non-highest versions, Maven 2- and 4-component versions and qualifiers; acyclic edges with exact/caret/tilde/range/*/latest/N.x (npm) and soft/range/hard (Maven) requirements whose targets move with the version, dependencies dropped or added in later versions) served by the real deps.dev LocalClient; manifests with 1-5 direct requirements (npm: dependencies/dev/optional, aliases, dotted/scoped/dashed names, a key in two sections; Maven: dependencies, dependencyManagement, properties incl. shared ones, local parent POM, second declarations of an artifact at another version, profiles for Update); 1-4 vulnerabilities with explicit affected-version lists aimed at installed versions (with/without fix, multi-package advisories); default level in {major,minor,patch,none} and 0-2 per-package levels; plus three motif families (twin patches introducing one vulnerability, scope-shifting fix, diamond with one or two advisories); the registry lists a package's versions to the strategies in ascending, descending or rotated order; one of npm/relax, Maven/override, Maven/Update; FixVulns runs under the scenario's schedule vector with 0-2 transient registry/matcher errors; every update of every applied patch and of every patch the strategy computed (un-faulted re-computation) is checked; non-trivial = at least one update whose base and new version were both resolved and compared; distinct = distinct scenario JSON"
 }
 
 func (C11) Gen(rt *rapid.T, tier string) any {
